@@ -4,11 +4,11 @@
  *   patterns = every pattern of 1..4 keywords taken in order from {ABcd, EFgh, IJ, KLMno}, each keyword
  *              independently optional and/or numeric, with/without '?', plus common patterns and the
  *              patterns shipped in the repository's tests and examples;
- *   headers  = (A) every sequence of <= N mnemonics over {short, long, long+letter, short+"1"} of every
+ *   headers  = (A) every sequence of <= N mnemonics over {short, long, long-letter, short+"1"} of every
  *              keyword of the pattern and an alien mnemonic, x leading colon x '?' x letter case;
  *              (B) every "skeleton" (any subset of the keywords in order, one alien inserted anywhere, one
  *              adjacent pair swapped) spelled with every combination of 8 forms per mnemonic (short, long,
- *              short+letter, long-letter, long+letter, +"1", +"012", long+"7") x colon x '?' x 3 cases.
+ *              long-letter, short+"1", long+letter, short+letter, long+"012", long+"7") x colon x '?' x 3 cases.
  * Oracle = ref_pattern.h.  Compared: matchCommand (numbers array pre-filled with a sentinel), SCPI_Match,
  * and, for (B), the public path SCPI_Input -> handler -> SCPI_CommandNumbers / SCPI_IsCmd / -113.
  */
@@ -127,15 +127,15 @@ static void apply_case(char * s, int n, int mode) {
 }
 
 static int make_form(char * out, const rp_kw_t * k, int form) {
-    /* 0 short, 1 long, 2 long+letter, 3 short+"1", 4 short+letter, 5 long-letter, 6 long+"012", 7 long+"7" */
+    /* 0 short, 1 long, 2 long-letter, 3 short+"1", 4 long+letter, 5 short+letter, 6 long+"012", 7 long+"7" */
     int n;
     switch (form) {
         case 0: memcpy(out, k->name, (size_t) k->slen); n = k->slen; break;
         case 1: memcpy(out, k->name, (size_t) k->llen); n = k->llen; break;
-        case 2: memcpy(out, k->name, (size_t) k->llen); out[k->llen] = 'x'; n = k->llen + 1; break;
+        case 2: n = k->llen - 1; if (n < 1) n = 1; memcpy(out, k->name, (size_t) n); break;
         case 3: memcpy(out, k->name, (size_t) k->slen); out[k->slen] = '1'; n = k->slen + 1; break;
-        case 4: memcpy(out, k->name, (size_t) k->slen); out[k->slen] = (k->slen < k->llen) ? k->name[k->slen] : 'q'; n = k->slen + 1; break;
-        case 5: n = k->llen - 1; if (n < 1) n = 1; memcpy(out, k->name, (size_t) n); break;
+        case 4: memcpy(out, k->name, (size_t) k->llen); out[k->llen] = 'x'; n = k->llen + 1; break;
+        case 5: memcpy(out, k->name, (size_t) k->slen); out[k->slen] = (k->slen < k->llen) ? k->name[k->slen] : 'q'; n = k->slen + 1; break;
         case 6: memcpy(out, k->name, (size_t) k->llen); memcpy(out + k->llen, "012", 3); n = k->llen + 3; break;
         default: memcpy(out, k->name, (size_t) k->llen); out[k->llen] = '7'; n = k->llen + 1; break;
     }
